@@ -1,4 +1,5 @@
 import HotstuffModel.Proofs.Ordering
+import HotstuffModel.Proofs.WireVotes
 /-!
 # C03 — Voting safety: one vote per round, none after timeout, only safe extensions
 
@@ -60,6 +61,69 @@ theorem last_voted_round_dominates (c : Committee) (name : Nat) (es : List Event
   intro s
   have := (reachable_inv c name es).1
   exact ⟨fun b hb => (this.voted b hb).1, fun t ht => (this.touts t ht).1, this.lv_le⟩
+
+/-! ## On the wire
+
+The theorems above are about the record `voted b` left where `make_vote` signs.  These tie the
+vote MESSAGES (`Out.vote to v`: sent to the next leader; `Out.selfVote v`: handled locally when
+the node leads the next round) to those records. -/
+
+/-- The vote carried by a vote output. -/
+def voteOfOut : Out → Option Vote
+  | .vote _ v => some v
+  | .selfVote v => some v
+  | _ => none
+
+theorem run_name (c : Committee) (name : Nat) (es : List Event) :
+    (run c (init c name) es).name = name := by
+  rw [(ext_run c (init c name) es).name]
+  unfold init; simp only []; split <;> rfl
+
+/-- Every vote message is the vote — signed by the node, for the block's digest and round — for a
+block recorded by `make_vote` immediately before, and goes to the leader of the next round. -/
+theorem wire_vote_is_for_voted_block (c : Committee) (name : Nat) (es : List Event)
+    (h1 h2 : List Out) (o : Out) (v : Vote) (ho : voteOfOut o = some v)
+    (hh : (run c (init c name) es).hist = h1 ++ o :: h2) :
+    ∃ b r, h2 = .voted b :: r ∧ v = voteFor name b ∧
+      (∀ to, o = .vote to v → to = c.leader (b.round + 1) ∧ to ≠ name) ∧
+      (o = .selfVote v → name = c.leader (b.round + 1)) := by
+  have hw := reachable_wire c name es
+  rw [run_name, hh] at hw
+  have hw2 := wireOK_suffix c name h1 _ hw
+  cases o <;> simp [voteOfOut] at ho
+  · rename_i to v'
+    subst ho
+    obtain ⟨⟨b, r, e1, e2, e3, e4⟩, _⟩ := hw2
+    refine ⟨b, r, e1, e2, ?_, ?_⟩
+    · intro to' h; cases h; exact ⟨e3, e4⟩
+    · intro h; cases h
+  · rename_i v'
+    subst ho
+    obtain ⟨⟨b, r, e1, e2, e3⟩, _⟩ := hw2
+    refine ⟨b, r, e1, e2, ?_, ?_⟩
+    · intro to' h; cases h
+    · intro _; exact e3
+
+/-- Vote messages carry strictly increasing rounds: at most one vote message per round, ever. -/
+theorem wire_vote_rounds_strictly_increase (c : Committee) (name : Nat) (es : List Event)
+    (h1 h2 : List Out) (o o' : Out) (v v' : Vote)
+    (ho : voteOfOut o = some v) (ho' : voteOfOut o' = some v')
+    (hh : (run c (init c name) es).hist = h1 ++ o :: h2) (hmem : o' ∈ h2) :
+    v'.round < v.round := by
+  obtain ⟨b, r, e1, e2, _, _⟩ := wire_vote_is_for_voted_block c name es h1 h2 o v ho hh
+  subst e1
+  have hr : o' ∈ r := by
+    rcases List.mem_cons.mp hmem with h | h
+    · subst h; simp [voteOfOut] at ho'
+    · exact h
+  obtain ⟨r1, r2, er⟩ := List.append_of_mem hr
+  have hh' : (run c (init c name) es).hist = (h1 ++ o :: .voted b :: r1) ++ o' :: r2 := by
+    rw [hh, er]; simp
+  obtain ⟨b', r3, e1', e2', _, _⟩ := wire_vote_is_for_voted_block c name es _ r2 o' v' ho' hh'
+  have hvb : (run c (init c name) es).hist = (h1 ++ [o]) ++ .voted b :: r := by rw [hh]; simp
+  have := vote_rounds_strictly_increase c name es (h1 ++ [o]) r b hvb b' (by rw [er, e1']; simp)
+  rw [e2, e2']
+  simpa [voteFor] using this
 
 /-- Non-vacuity: a 4-node committee, node 3 receives the round-1 leader's block (justified by
 the genesis QC), votes for it; a later equivocating proposal of the same round is not voted. -/
